@@ -13,7 +13,7 @@ fn gen_requires_mix(t: &mut Tape, l: &mut Vec<&'static str>) -> Option<Case> {
     let syn = if t.chance(128) { Syntax::Luau } else { Syntax::Lua51 };
     let mut cfg = crate::cfg::gen_cfg(t, syn);
     cfg.sort_requires = !t.chance(30);
-    let src = crate::genreq::generate(t, syn, &crate::genreq::ReqOpts { ignores: true, regions: false }, l);
+    let src = crate::genreq::generate(t, syn, &crate::genreq::ReqOpts { ignores: true, regions: false, inline_comments: true }, l);
     let mut case = Case::new(src, cfg);
     l.push("requires-top-level");
     if t.chance(128) {
@@ -48,6 +48,18 @@ fn gen_c06(t: &mut Tape, l: &mut Vec<&'static str>) -> Option<Case> {
     // than the text the first run measures, so the width keeps a margin of two columns per parenthesis pair there
     let mode = t.pick(8);
     let k = t.pick(64);
+    if t.chance(20) {
+        // a top level of require groups (multi-line requires, comments, directives) with sorting on, at the default
+        // width: a second run must neither re-group nor re-order
+        use crate::lex::Syntax;
+        let syn = if t.chance(128) { Syntax::Luau } else { Syntax::Lua51 };
+        let mut cfg = crate::cfg::gen_cfg(t, syn);
+        cfg.sort_requires = true;
+        cfg.column_width = 120 + k;
+        let src = crate::genreq::generate(t, syn, &crate::genreq::ReqOpts { ignores: true, regions: true, inline_comments: false }, l);
+        l.push("requires-top-level");
+        return Some(Case::new(src, cfg));
+    }
     if t.chance(64) {
         // messy programs (semicolons, odd spacing, CRLF lines, blank lines, redundant parentheses, statement-level
         // comments) at a width nothing reaches: what the second run could still change is not a layout decision
@@ -69,17 +81,37 @@ fn gen_c06(t: &mut Tape, l: &mut Vec<&'static str>) -> Option<Case> {
         l.push("size:small");
     }
     let mut case = gen_standard(t, l, opts, true, false)?;
-    if let Some(natural) = natural_width(&case) {
+    if let Some((natural, formatted)) = natural_rendering(&case) {
         let _ = mode;
-        let margin = if parens { 2 * case.source.matches('(').count() } else { 0 };
+        // the first run measures some constructs as they are written (D9): the width keeps one column of margin for
+        // every non-blank character the formatter removes (redundant parentheses, call parentheses under
+        // call_parentheses = None / NoSingle*)
+        let nonblank = |t: &str| t.chars().filter(|c| !c.is_whitespace()).count();
+        // (with redundant parentheses in the program, removals and additions can cancel in that count: two columns per
+        // parenthesis pair of the source instead)
+        let margin = if parens { 2 * case.source.matches('(').count() } else { nonblank(&case.source).saturating_sub(nonblank(&formatted)) };
         if case.cfg.column_width < natural + margin || small {
             case.cfg.column_width = natural + margin + k % 4;
-            l.push(if parens { "width:natural+parens+0..3" } else { "width:natural+0..3" });
+            l.push(if margin > 0 { "width:natural+removed+0..3" } else { "width:natural+0..3" });
         } else {
             l.push("width:roomy-as-drawn");
         }
     }
     Some(case)
+}
+
+/// the program formatted at infinite width, and the width of its longest line (tabs counted as indent_width columns)
+pub fn natural_rendering(case: &Case) -> Option<(usize, String)> {
+    let mut c = case.clone();
+    c.cfg.column_width = usize::MAX;
+    c.range = None;
+    match crate::engine::run_format(&c).0 {
+        crate::engine::Outcome::Ok(q) => {
+            let w = q.lines().map(|line| line.chars().map(|ch| if ch == '\t' { c.cfg.indent_width } else { 1 }).sum::<usize>()).max().unwrap_or(0);
+            Some((w, q))
+        }
+        _ => None,
+    }
 }
 
 /// longest line (tabs counted as indent_width columns) of the program formatted at infinite width
@@ -146,35 +178,35 @@ pub static C03: E1Prop = E1Prop {
     t2_cases: (20_000, 400_000),
 };
 
-/// Known finding KF-C06-ifexpr-semicolon-multiline-comment: Luau input with a block comment that spans lines directly
-/// after a `;` on the same line
+/// Known finding KF-C06-ifexpr-semicolon-multiline-comment: Luau input with a block comment that spans lines and starts
+/// behind code on a line that holds a `;` in front of it or the `else` of an if-expression (the first run moves such a
+/// comment - off the removed `;`, out of parentheses it adds - after it has decided the layout of the if-expression)
 fn c06_semicolon_multiline_comment(c: &Case) -> Option<&'static str> {
     if c.cfg.syntax != crate::lex::Syntax::Luau {
         return None;
     }
-    let b = c.source.as_bytes();
-    let mut i = 0;
-    while i < b.len() {
-        if b[i] == b';' {
-            let mut j = i + 1;
-            while j < b.len() && (b[j] == b' ' || b[j] == b'\t') {
-                j += 1;
-            }
-            if c.source[j..].starts_with("--[") {
-                // a long-bracket comment: does it close on this line?
-                let rest = &c.source[j + 3..];
-                let level = rest.bytes().take_while(|x| *x == b'=').count();
-                if rest[level..].starts_with('[') {
-                    let close = format!("]{}]", "=".repeat(level));
-                    let body = &rest[level + 1..];
-                    let end = body.find(&close).unwrap_or(body.len());
-                    if body[..end].contains('\n') {
-                        return Some("KF-C06-ifexpr-semicolon-multiline-comment");
-                    }
-                }
-            }
+    let src = &c.source;
+    let mut from = 0;
+    while let Some(p) = src[from..].find("--[") {
+        let at = from + p;
+        from = at + 3;
+        let rest = &src[at + 3..];
+        let level = rest.bytes().take_while(|x| *x == b'=').count();
+        if !rest[level..].starts_with('[') {
+            continue;
         }
-        i += 1;
+        let close = format!("]{}]", "=".repeat(level));
+        let body = &rest[level + 1..];
+        let end = body.find(&close).unwrap_or(body.len());
+        if !body[..end].contains('\n') {
+            continue;
+        }
+        let line_start = src[..at].rfind('\n').map_or(0, |q| q + 1);
+        let before = &src[line_start..at];
+        let code = before.trim();
+        if code.ends_with(';') || before.contains("else ") || before.contains("else\t") {
+            return Some("KF-C06-ifexpr-semicolon-multiline-comment");
+        }
     }
     None
 }
@@ -239,6 +271,16 @@ pub static C05: E1Prop = E1Prop {
 };
 
 fn gen_c08(t: &mut Tape, l: &mut Vec<&'static str>) -> Option<Case> {
+    if t.chance(24) {
+        // directives and regions among require groups, with sorting on: ignored statements stay where they are
+        use crate::lex::Syntax;
+        let syn = if t.chance(128) { Syntax::Luau } else { Syntax::Lua51 };
+        let mut cfg = crate::cfg::gen_cfg(t, syn);
+        cfg.sort_requires = true;
+        let src = crate::genreq::generate(t, syn, &crate::genreq::ReqOpts { ignores: true, regions: true, inline_comments: true }, l);
+        l.push("requires-top-level");
+        return Some(Case::new(src, cfg));
+    }
     gen_standard(t, l, GenOpts { ignores: true, ..GenOpts::stmt_comments() }, false, false)
 }
 
@@ -251,7 +293,7 @@ pub static C08: E1Prop = E1Prop {
     thorough_cases: 2_000_000,
     use_t0: true,
     tape_len: 600,
-    assumptions: &["sort_requires is off (its interaction with ignore regions is the listed finding KF-C08-sort-ignore-region)", "a directive counts when a line of a leading comment, trimmed, equals the directive (README + context.rs)"],
+    assumptions: &["with sort_requires on only the first half of the oracle applies (ignored nodes verbatim, in order, at their position)", "a directive counts when a line of a leading comment, trimmed, equals the directive (README + context.rs)"],
     extra: None,
     exclude: None,
     raw_oracle: None,
@@ -271,7 +313,7 @@ fn gen_c09(t: &mut Tape, l: &mut Vec<&'static str>) -> Option<Case> {
         let mut cfg = crate::cfg::gen_cfg(t, syn);
         cfg.sort_requires = true;
         l.push("sort-requires-with-range");
-        let src = crate::genreq::generate(t, syn, &crate::genreq::ReqOpts { ignores: false, regions: false }, l);
+        let src = crate::genreq::generate(t, syn, &crate::genreq::ReqOpts { ignores: false, regions: false, inline_comments: true }, l);
         Case::new(src, cfg)
     } else {
         // a third of the programs carry ignore directives: an ignored statement is left as written whether the range
@@ -394,7 +436,7 @@ fn gen_c12(t: &mut Tape, l: &mut Vec<&'static str>) -> Option<Case> {
     let syn = if t.chance(90) { Syntax::Luau } else { Syntax::Lua51 };
     let mut cfg = crate::cfg::gen_cfg(t, syn);
     cfg.sort_requires = !t.chance(50);
-    let src = crate::genreq::generate(t, syn, &crate::genreq::ReqOpts { ignores: true, regions: true }, l);
+    let src = crate::genreq::generate(t, syn, &crate::genreq::ReqOpts { ignores: true, regions: true, inline_comments: true }, l);
     Some(Case::new(src, cfg))
 }
 
